@@ -1,4 +1,86 @@
-pub fn main(_args: &[String]) {
-    eprintln!("rdbload: not built yet");
-    std::process::exit(2);
+//! `fvh rdbload <file>`: load an RDB file into a FRESH storage engine through the real loader and print
+//! one JSON line: {"result":"ok"|"err","error":..,"peak_alloc":..,"ms":..,"dbs":{db:{hexkey:[type,canon,has_ttl]}}}
+//! Runs under RLIMIT_AS with the counting allocator of codec.rs, so an allocation sized by a corrupt length
+//! field shows up as peak_alloc (or aborts this child, which the caller records as a crash).
+use std::sync::atomic::Ordering;
+use std::time::Instant;
+
+use ferrous::storage::{GetResult, RdbConfig, RdbEngine, StorageEngine, Value};
+use serde_json::{json, Map, Value as J};
+
+use crate::jsonx::hex;
+
+fn canon(v: &Value) -> (String, J) {
+    match v {
+        Value::String(b) => ("string".into(), json!(hex(b))),
+        Value::List(l) => ("list".into(), J::Array(l.iter().map(|x| json!(hex(x))).collect())),
+        Value::Set(s) => {
+            let mut m: Vec<String> = s.iter().map(|x| hex(x)).collect();
+            m.sort();
+            ("set".into(), json!(m))
+        }
+        Value::Hash(h) => {
+            let mut m: Vec<(String, String)> = h.iter().map(|(k, v)| (hex(k), hex(v))).collect();
+            m.sort();
+            ("hash".into(), json!(m))
+        }
+        Value::SortedSet(z) => {
+            let mut m: Vec<(String, String)> = z.get_all_items().into_iter()
+                .map(|(k, s)| (hex(&k), format!("{:016x}", s.to_bits()))).collect();
+            m.sort();
+            ("zset".into(), json!(m))
+        }
+        Value::Stream(st) => {
+            let r = st.range(&ferrous::storage::stream::StreamId::min(), &ferrous::storage::stream::StreamId::max(), None, false);
+            let es: Vec<J> = r.entries.iter().map(|e| {
+                let mut f: Vec<(String, String)> = e.fields.iter().map(|(k, v)| (hex(k), hex(v))).collect();
+                f.sort();
+                json!([e.id.to_string(), f])
+            }).collect();
+            ("stream".into(), J::Array(es))
+        }
+    }
+}
+
+pub fn main(args: &[String]) {
+    let path = std::path::PathBuf::from(args.get(0).expect("file"));
+    unsafe {
+        let lim = libc::rlimit { rlim_cur: 2 << 30, rlim_max: 2 << 30 };
+        libc::setrlimit(libc::RLIMIT_AS, &lim);
+    }
+    let mut cfg = RdbConfig::default();
+    cfg.dir = path.parent().map(|p| p.to_string_lossy().to_string()).unwrap_or_else(|| ".".into());
+    cfg.filename = path.file_name().unwrap().to_string_lossy().to_string();
+    cfg.auto_save = false;
+    let storage = StorageEngine::new_in_memory();
+    let engine = RdbEngine::new(cfg);
+    crate::codec::counting(true);
+    let c0 = crate::codec::current();
+    crate::codec::reset_peak();
+    let t = Instant::now();
+    let res = engine.load(&storage);
+    let ms = t.elapsed().as_millis() as u64;
+    let peak = (crate::codec::peak() - c0).max(0);
+    crate::codec::counting(false);
+    let mut dbs = Map::new();
+    for db in 0..storage.database_count() {
+        let mut m = Map::new();
+        for key in storage.get_all_keys(db).unwrap_or_default() {
+            let ttl = storage.ttl(db, &key).ok().flatten().is_some();
+            if let Ok(GetResult::Found(v)) = storage.get(db, &key) {
+                let (t, c) = canon(&v);
+                m.insert(hex(&key), json!([t, c, ttl]));
+            }
+        }
+        if !m.is_empty() {
+            dbs.insert(db.to_string(), J::Object(m));
+        }
+    }
+    let out = json!({
+        "result": if res.is_ok() { "ok" } else { "err" },
+        "error": res.err().map(|e| e.to_string()).unwrap_or_default(),
+        "peak_alloc": peak, "ms": ms, "dbs": J::Object(dbs),
+    });
+    println!("{}", out);
+    let _ = Ordering::Relaxed;
 }
